@@ -1187,7 +1187,7 @@ package mast
 //@ requires key [C03] (= (Box.Bytes H cacheKey) (ckey (Box.Any H persist) (Box.Bytes H hash)))
 // the worker publishes the node in the shared cache: by the time the write is queued the node is
 // already marked shared and clean, so no tree that finds it there can take it for a private node
-//@ requires marked [C11] (and (mastNode.shared H (Box.Int H node)) (not (mastNode.dirty H (Box.Int H node))) (not (= (mastNode.source H (Box.Int H node)) 0)))
+//@ requires marked [C02 C05 C08 C11 C13] (and (mastNode.shared H (Box.Int H node)) (not (mastNode.dirty H (Box.Int H node))) (not (= (mastNode.source H (Box.Int H node)) 0)))
 //@ ensures stored [C03] (=> (= result anil) (isDurable H (ckey (Box.Any H0 persist) (Box.Bytes H0 hash))))
 //@ ensures mono [C03] (forall ((k Bytes)) (! (=> (isDurable H0 k) (isDurable H k)) :pattern ((isDurable H k))))
 
